@@ -74,7 +74,7 @@ fn date(rng: &mut Rng, ctx: &mut Ctx) -> Option<Date> {
 }
 
 fn note(rng: &mut Rng) -> String {
-    rng.pick(&["", "", "a note", "n\u{f6}te \"quoted\"", "x"]).to_string()
+    rng.pick(&["", "", "a note", "n\u{f6}te \"quoted\"", "x", " ", "\t", "\u{a0}", "  padded  ", "\n"]).to_string()
 }
 
 fn via_bytes(e: &Envelope) -> Option<Envelope> {
@@ -166,12 +166,29 @@ pub fn run(ctx: &mut Ctx) {
         // expected function
         ctx.eval();
         ctx.count("expected_function_checks");
-        let other_f = loop {
-            let g = function(&mut rng);
-            if g != f {
-                break g;
+        // "another function" is decided on the encodings, not with the library's own PartialEq; the
+        // known/named pair with the same display name (known add vs named "add") is drawn on purpose
+        let enc = |x: &Function| dcbor::CBOR::from(x.clone()).to_cbor_data();
+        let other_f = if rng.chance(1, 3) {
+            match &f {
+                Function::Known(..) => Function::new_named(&f.name()),
+                Function::Named(_) => {
+                    let n = f.named_name().unwrap_or_default();
+                    Function::new_known(rng.below(5) as u64, Some(n))
+                }
+            }
+        } else {
+            loop {
+                let g = function(&mut rng);
+                if enc(&g) != enc(&f) {
+                    break g;
+                }
             }
         };
+        if enc(&other_f) == enc(&f) {
+            continue;
+        }
+        ctx.count("other_function_same_display_name_or_random");
         if Expression::try_from((ee.clone(), Some(&f))).is_err() {
             ctx.violation("expression/expected-function-rejected", "the expected function was rejected", replay_env(&ee));
         }
